@@ -46,7 +46,7 @@ Definition spec_scalar (s : scalar) (v : value) : list Z :=
   | _, _ => []
   end.
 
-(* the values a serializer accepts.  time: Cassandra itself also requires 0 <= n; duration: months and days
+(* the values a serializer accepts.  duration: months and days
    must fit int32 on the server -- the driver's wider acceptance is recorded in docs/C02.md, and harmless for
    "encoded as a different value" because encoding stays injective (C01) *)
 Definition range_scalar (s : scalar) (v : value) : bool :=
@@ -54,7 +54,7 @@ Definition range_scalar (s : scalar) (v : value) : bool :=
   | SAscii, VText cps => all_ascii cps
   | SText, VText cps => forallb scalar_cp cps
   | SBigint, VInt z | STimestamp, VInt z => in_z (- 2 ^ 63) (2 ^ 63) z
-  | STime, VInt z => in_z (- 2 ^ 63) DAY_NANOS z
+  | STime, VInt z => in_z 0 DAY_NANOS z
   | SDouble, VInt z => in_z 0 (2 ^ 64) z
   | SFloat, VInt z => in_z 0 (2 ^ 32) z
   | SInt, VInt z | SDate, VInt z => in_z (- 2 ^ 31) (2 ^ 31) z
@@ -184,7 +184,8 @@ Fixpoint in_range (pv : Z) (t : cqltype) (v : value) {struct t} : bool :=
     match v with
     | VSeq vs =>
       (len vs =? n) &&
-      forallb (fun x => negb (is_null x) && in_range pv t' x && (len (spec_enc pv t' x) <? 2 ^ 64)) vs
+      forallb (fun x => negb (is_null x) && in_range pv t' x &&
+                        ((match serial_size t' with Some _ => true | None => false end) || (len (spec_enc pv t' x) <? 2 ^ 64))) vs
     | _ => false
     end
   | TFrozen t' | TReversed t' => negb (is_null v) && in_range pv t' v
@@ -277,11 +278,6 @@ Fixpoint py_repr (t : cqltype) (v : value) {struct t} : bool :=
   | _ =>
     match t with
     | TScalar STimestamp => match v with VInt ms => (TS_MIN <=? ms) && (ms <=? TS_MAX) | _ => true end
-    | TScalar SDuration =>          (* 64-bit components: the encoder refuses anything else anyway (C02_rejects) *)
-      match v with
-      | VDur m d n => in_z (- 2 ^ 63) (2 ^ 63) m && in_z (- 2 ^ 63) (2 ^ 63) d && in_z (- 2 ^ 63) (2 ^ 63) n
-      | _ => true
-      end
     | TScalar _ => true
     | TList t' | TSet t' => match v with VSeq vs => forallb (py_repr t') vs | _ => true end
     | TVector t' _ => match v with VSeq vs => forallb (fun x => negb (is_null x) && py_repr t' x) vs | _ => true end
